@@ -12,9 +12,9 @@ import (
 // Check is one property's monitor.
 type Check struct {
 	ID    string
-	Race  bool                                // build with -race
-	Run   func(ctx *core.Ctx)                 // parent entry point
-	Child func(ctx *core.Ctx, batch []byte)   // isolated batch entry point (optional)
+	Race  bool                              // build with -race
+	Run   func(ctx *core.Ctx)               // parent entry point
+	Child func(ctx *core.Ctx, batch []byte) // isolated batch entry point (optional)
 }
 
 // Registry maps property ids to checks; filled by init() of each cNN.go.
